@@ -571,6 +571,73 @@ impl<'a, T> Index<usize> for Strict<'a, T> {
 // ------------------------------------------------------------------------------------------
 // comparison-counting element type
 
+/// Real-clock expiry in the MIDDLE of a run: an item whose `==` waits, at a chosen comparison, until
+/// a real deadline has passed, and from then on counts the comparisons that are still made.  The
+/// verdict drawn from it does not depend on timing: whenever the deadline passes (at the chosen
+/// comparison, or earlier on a slow machine), the count only starts once `Instant::now()` has been
+/// seen behind the deadline, and the bound it is held against must hold for every expiry moment.
+pub mod blocking {
+    use std::cell::RefCell;
+    use std::hash::{Hash, Hasher};
+    use std::time::Instant;
+
+    struct St {
+        deadline: Option<Instant>,
+        block_at: u64,
+        count: u64,
+        expired: bool,
+        after: u64,
+    }
+    thread_local! {
+        static ST: RefCell<St> = RefCell::new(St { deadline: None, block_at: u64::MAX, count: 0, expired: false, after: 0 });
+    }
+    /// `deadline` None = only count
+    pub fn arm(deadline: Option<Instant>, block_at: u64) {
+        ST.with(|s| *s.borrow_mut() = St { deadline, block_at, count: 0, expired: false, after: 0 });
+    }
+    pub fn count() -> u64 {
+        ST.with(|s| s.borrow().count)
+    }
+    pub fn after() -> u64 {
+        ST.with(|s| s.borrow().after)
+    }
+    pub fn expired() -> bool {
+        ST.with(|s| s.borrow().expired)
+    }
+
+    #[derive(Clone, Copy, Debug, Eq, PartialOrd, Ord)]
+    pub struct Blk(pub u32);
+
+    impl PartialEq for Blk {
+        fn eq(&self, other: &Blk) -> bool {
+            ST.with(|s| {
+                let mut s = s.borrow_mut();
+                if s.expired {
+                    s.after += 1;
+                } else {
+                    s.count += 1;
+                    if let Some(d) = s.deadline {
+                        if s.count == s.block_at {
+                            while Instant::now() <= d {
+                                std::hint::spin_loop();
+                            }
+                        }
+                        if Instant::now() > d {
+                            s.expired = true;
+                        }
+                    }
+                }
+            });
+            self.0 == other.0
+        }
+    }
+    impl Hash for Blk {
+        fn hash<H: Hasher>(&self, h: &mut H) {
+            self.0.hash(h)
+        }
+    }
+}
+
 pub mod counting {
     use std::cell::Cell;
     use std::hash::{Hash, Hasher};
@@ -867,12 +934,22 @@ impl Index<usize> for Reversed {
 }
 
 /// Leaves whatever per-thread state a diff can leave behind when it is aborted: a diff through
-/// Compact + Replace whose innermost hook fails at call `fail_at`, and one whose item comparison
-/// panics half way (caught).  Used before a judged call; a later diff on the same thread must not
-/// be affected.
+/// Compact + Replace whose innermost hook fails at call `fail_at`, and diffs whose deadline runs out
+/// in mid-run.  Used before a judged call; a later diff on the same thread must not be affected.
 pub fn poison_thread(alg: Algorithm, old: &[u32], new: &[u32], fail_at: usize) {
     let mut h = similar::algorithms::Compact::new(similar::algorithms::Replace::new(Recorder::failing(fail_at)), old, new);
     let _ = similar::algorithms::diff_slices(alg, &mut h, old, new);
+    // diffs that run out of time in mid-run (virtual clock, expiry at a probe behind the first):
+    // the given inputs, and a fixed 48 x 40 pair that has many probes with every algorithm
+    let far = std::time::Instant::now() + std::time::Duration::from_secs(3600);
+    let fixed_old: Vec<u32> = (0..48u32).map(|i| (i * 7 + i / 5) % 6).collect();
+    let fixed_new: Vec<u32> = (0..40u32).map(|i| (i * 5 + i / 3 + 1) % 6).collect();
+    for (o, n, k) in [(old, new, 1 + fail_at as u64), (&fixed_old[..], &fixed_new[..], 2 + 3 * fail_at as u64)] {
+        similar::verif::clock::install(Some(k));
+        let mut r = Recorder::new();
+        let _ = similar::algorithms::diff_slices_deadline(alg, &mut r, o, n, Some(far));
+        similar::verif::clock::install(None);
+    }
 }
 
 /// A caller-defined unsized `DiffableStr`: ASCII-case-insensitive text (`Eq`, `Ord`, `Hash` fold the
